@@ -857,6 +857,19 @@ func (c *Ctx) c13Counts(b BK, decodeTarget types.Object) {
 						if ifs, ok := a.(*ast.IfStmt); ok && within && mentionsErr(ifs.Cond) {
 							justified = true
 						}
+						// the switch form of the same test: a case that mentions the error, or the default of a switch over it
+						if sw, ok := a.(*ast.SwitchStmt); ok && within {
+							if sw.Tag != nil && mentionsErr(sw.Tag) {
+								justified = true
+							}
+							for _, cc := range sw.Body.List {
+								for _, ce := range cc.(*ast.CaseClause).List {
+									if mentionsErr(ce) {
+										justified = true
+									}
+								}
+							}
+						}
 					}
 					if within && !justified {
 						r.Bad("R13.3", rname, "restore-stops-before-end-of-input", c.Pos(n.Pos()), "the decode loop is left under a condition that does not mention an error: Restore stops although the input has more records, the rest of the dump is never read", nil)
